@@ -288,4 +288,33 @@ theorem feeOf_marshal (outs : List TxOut) (id : B32) :
   rfl
 
 
+/-- the update loop of `mallocTransaction` computes, from any starting value, the maximum of that
+value and the relative locks (BIP 68) of the given kind among the inputs -/
+theorem foldl_lockStep {α : Type} (f : α → UInt32) (dur : Bool) (l : List α) (a : Nat) :
+    l.foldl (fun a i => lockStep dur a (f i)) a
+      = max a ((l.filterMap fun i => relLock dur (f i)).foldr max 0) := by
+  induction l generalizing a with
+  | nil => simp
+  | cons x xs ih =>
+    have hlt : (f x < 0x80000000) ↔ (f x).toNat < 2^31 := by
+      rw [UInt32.lt_iff_toNat_lt]; rfl
+    simp only [List.foldl_cons, ih, List.filterMap_cons]
+    unfold lockStep relLock
+    by_cases h1 : f x < 0x80000000
+    · have h1' := hlt.mp h1
+      by_cases h2 : (((f x &&& 0x400000) != 0) == dur) = true
+      · simp only [h1, h1', h2, if_true, and_self, List.foldr_cons]
+        split <;> omega
+      · simp only [h1, h1', h2, if_true, and_false, if_false, Bool.false_eq_true]
+    · have h1' : ¬ (f x).toNat < 2^31 := fun h => h1 (hlt.mpr h)
+      simp only [h1, h1', if_false, false_and]
+
+/-- the relative-lock maxima the C environment stores are those of the shown inputs -/
+theorem lockRel_marshal (dur : Bool) (e : EnvArgs) :
+    (marshal e).tx.inputs.foldl (fun a i => lockStep dur a i.sequence) 0
+      = (e.shown.filterMap fun p => relLock dur p.1.sequence).foldr max 0 := by
+  rw [foldl_lockStep (fun i : RawInput => i.sequence)]
+  simp only [marshal, EnvArgs.shown, List.filterMap_map, Nat.zero_max]
+  rfl
+
 end Env
